@@ -17,6 +17,7 @@ type KnownFinding struct {
 	What         string `json:"what"`
 	WitnessClass string `json:"witness_class,omitempty"` // SMT-LIB boolean over the obligation's model constants
 	ClassSpec    string `json:"class_spec,omitempty"`    // for function obligations: spec-language condition over the entry state; the obligation must still hold outside it
+	WitnessSpec  string `json:"witness_spec,omitempty"`  // a region inside the class where a counterexample is easy to find (tried first)
 	Replay       string `json:"replay,omitempty"`        // template under /verif/replay
 	Commit       string `json:"commit,omitempty"`
 }
